@@ -34,6 +34,14 @@ Part 'seeds': two fresh (code, noise, decoder, default_rng(seed)) runs of 20
 trials must be bitwise equal, for every registered decoder, and equal to the
 sequence of 20 run_once records drawn from the same seed at the simulated rate.
 
+Clause 'sampler-ignores-the-generator-it-was-given' (all parts, evaluated
+first): the generator handed in must be consumed -- n draws per trial on a
+scripted generator, a changed state on a numpy one.  Zero draws while errors
+are produced is the violation; recorded values are then not compared (they are
+not a function of the environment).  Seeds part: every seeding style whose
+object offers .random(): default_rng(s), RandomState(s), the np.random module
+after np.random.seed(s); the style is in the key.
+
 Axis 'decoder prior != simulated rate' (histories and seeds): the decoder is
 built with a prior error rate different from the rate that is simulated (a
 mismatched decoder is a legitimate configuration), including simulated p = 0
@@ -50,6 +58,7 @@ import io
 import itertools
 import math
 import contextlib
+import random
 
 import numpy as np
 
@@ -121,6 +130,8 @@ RATES = [0.05, 0.3]
 TRIAL_DECODERS = ['MatchingDecoder', 'BeliefPropagationOSDDecoder', 'UnionFindDecoder']
 SHARD = 1024
 TOL = 1e-12
+IGNORED = 'sampler-ignores-the-generator-it-was-given'
+SEED_STYLES = ['default_rng', 'RandomState', 'np.random-module']
 
 BOUNDS = {
     'quick': {'n_full': 6, 'noises': NOISES, 'rates': RATES, 'shard': SHARD, 'shard_slow': 256, 'uf_noises': NOISES,
@@ -129,14 +140,14 @@ BOUNDS = {
                                ('pureX', True)],
               'deformed_code_n': 0, 'structured_weight': 1, 'estimator_max_runs': 4, 'exact_n': 8, 'sampler_sizes': 2, 'sampler_n': 40,
               'history_total': 4,
-              'history_len': 4, 'seeds': 5, 'seed_trials': 20},
+              'history_len': 4, 'seeds': 5, 'seeds_all_styles': 2, 'seed_trials': 20},
     'thorough': {'n_full': 8, 'noises': NOISES, 'rates': RATES, 'shard': SHARD, 'shard_slow': 256, 'n_all_noises': 6,
                  'noises_above': [('depol', False), ('X.2Y.3Z.5', True), ('pureZ', False), ('pureZ', True),
                                   ('pureX', True)],
                  'uf_noises': [('depol', False), ('X.2Y.3Z.5', True), ('pureZ', True)],
                  'deformed_code_n': 6, 'structured_weight': 2, 'estimator_max_runs': 6, 'exact_n': 8, 'sampler_sizes': 4, 'sampler_n': 100,
                  'history_total': 4,
-                 'history_len': 4, 'seeds': 5, 'seed_trials': 20},
+                 'history_len': 4, 'seeds': 5, 'seeds_all_styles': 5, 'seed_trials': 20},
 }
 BUDGET_S = {'quick': 900, 'thorough': 7200}
 
@@ -438,6 +449,9 @@ def _pauli(e, n):
 def _check_record(ref, r, e_script, rng, bad):
     """Per-trial oracle.  Returns (correction int or None, success as recorded)."""
     n, k = ref.n, ref.k
+    if rng.pos == 0 and not rng.other_calls:
+        bad(IGNORED, e_script, variates_consumed=0, expected=n)      # callers stop comparing values
+        return None, r.get('success')
     if rng.pos != n or rng.other_calls:
         bad('rng-consumption', e_script, variates_consumed=rng.pos, expected=n,
             other_calls=[c[0] for c in rng.other_calls][:3])
@@ -595,10 +609,12 @@ def cases(tier, seed):
     for cfg in SEED_CONFIGS[tier]:
         dec, cls, size, p, params = cfg[:5]
         for s in range(b['seeds']):
-            seeds.append({'part': 'seeds', 'cls': cls, 'size': size, 'deformation': None, 'decoder': dec,
-                          'params': params, 'direction': 'X.2Y.3Z.5', 'noise_deformation': None, 'p': p,
-                          'decoder_p': cfg[5] if len(cfg) > 5 else None,
-                          'seed': s, 'trials': b['seed_trials']})
+            # every seeding style for the first seeds, the Generator style for all of them
+            for style in (SEED_STYLES if s < b['seeds_all_styles'] else SEED_STYLES[:1]):
+                seeds.append({'part': 'seeds', 'cls': cls, 'size': size, 'deformation': None, 'decoder': dec,
+                              'params': params, 'direction': 'X.2Y.3Z.5', 'noise_deformation': None, 'p': p,
+                              'decoder_p': cfg[5] if len(cfg) > 5 else None, 'style': style,
+                              'seed': s, 'trials': b['seed_trials']})
     # cheapest layer first (one seeded run of every decoder, the structured sweeps), then simplest first
     small = [c for c in trial if c['n'] <= 5]
     large = [c for c in trial if c['n'] > 5]
@@ -608,6 +624,7 @@ def cases(tier, seed):
 
 
 def eval_case(case):
+    random.seed(0)      # a sampler that falls back to Python's global stream is at least replayable
     res = {'trial': _eval_trial, 'structured': _eval_structured, 'histories': _eval_histories,
            'seeds': _eval_seeds, 'estimator': _eval_estimator, 'sampler': _eval_structured}[case['part']](case)
     for v in res['violations']:                 # per-kind totals of emitted violations, for the evidence
@@ -693,6 +710,8 @@ def _eval_trial(case):
         res['evals'] += 1
         nontrivial += int(e_script != 0)
         c, success = _check_record(ref, r, e_script, rng, bad)
+        if counts.get(IGNORED):
+            break
         # ---- the two complete sums
         m = env.script_mass(script)
         mass_sim += m
@@ -724,14 +743,16 @@ def _eval_trial(case):
     # tolerance proportional to the mass of the shard: summed over the shards of a configuration the two
     # complete sums then agree within TOL; the float error of either partial sum is <= ~2n*eps*mass
     tol = TOL * mass_ref
-    if counts.get('rng-consumption'):
+    if counts.get('rng-consumption') or counts.get(IGNORED):
         # the environment was not the scripted one: the two sums are not comparable (and the run would not
         # be deterministic); the consumption violation stands for the shard
         res['nontrivial'] = nontrivial
         res['traces'] = res['evals']
         res['capped'] = 0
         X['trial_shards_with_uncontrolled_rng'] = 1
-        V[:] = [v for v in V if v['key']['kind'] == 'rng-consumption']
+        V[:] = [v for v in V if v['key']['kind'] in ('rng-consumption', IGNORED)]
+        for v in V:
+            v['detail'].pop('script', None)         # the first script of the shard; not part of the finding
         return res
     if abs(mass_sim - mass_ref) > tol:
         bad('script-mass-differs-from-channel-probability', 0, mass_sim=mass_sim, mass_ref=mass_ref)
@@ -825,13 +846,15 @@ def _eval_structured(case):
         res['evals'] += 1
         res['nontrivial'] += int(w > 0)
         _check_record(ref, r, e_script, rng, bad)
+        if counts.get(IGNORED):
+            break
         outcomes.add('%s|%s|%d%d|%s' % (case['cls'], case['decoder'][:5], int(bool(r['success'])),
                                         int(bool(r['codespace'])),
                                         ''.join(str(int(x)) for x in np.asarray(r['effective_error']))))
     for kk, vv in counts.items():
         X[case['part'] + '_' + kk.replace('-', '_')] = vv
-    if counts.get('rng-consumption'):           # environment not under control: keep the deterministic finding
-        V[:] = [v for v in V if v['key']['kind'] == 'rng-consumption']
+    if counts.get('rng-consumption') or counts.get(IGNORED):    # environment not under control
+        V[:] = [v for v in V if v['key']['kind'] in ('rng-consumption', IGNORED)]
     del V[5:]
     res['traces'] = res['evals']
     res['outcomes'] = sorted(outcomes)[:50]
@@ -935,17 +958,22 @@ def _eval_histories(case):
         with contextlib.redirect_stdout(io.StringIO()):
             r = run_once(code, em, dec, case['p'], rng=rng)
         recs.append(r)
+        res['evals'] += 1
+        if rng.pos != (t + 1) * n or rng.other_calls:
+            break
         # recorded fields must be mutually consistent (cheap per-trial oracle)
         _check_record(ref, r, errors[t], ScriptedRNG_pos(n), lambda kind, e, **d: bad('reference-' + kind, (), **d))
-        res['evals'] += 1
-    if rng.pos != T * n or rng.other_calls:
-        # the trials did not draw from the scripted stream: nothing below would be deterministic
-        bad('rng-consumption', (), variates_consumed=rng.pos, expected=T * n)
-        V[:] = [v for v in V if v['key']['kind'] == 'rng-consumption']
-        res['traces'] = T
-        return res
+    uncontrolled = rng.pos != T * n or bool(rng.other_calls)
+    if uncontrolled:
+        # the trials did not draw from the scripted stream: decided by the draw count alone; below only the
+        # structural clauses (lengths, counts, estimator, draw counts) are evaluated, no recorded values
+        if rng.pos == 0 and not rng.other_calls:
+            bad(IGNORED, (), variates_consumed=0, expected=T * n, entry='run_once')
+        else:
+            bad('rng-consumption', (), variates_consumed=rng.pos, expected=T * n)
+        recs = []
     want = {}
-    for t in range(T + 1):
+    for t in range(0 if uncontrolled else T + 1):
         want[t] = (t,
                    tuple(np.asarray(r['effective_error']).astype(int).tobytes() for r in recs[:t]),
                    tuple(bool(r['success']) for r in recs[:t]),
@@ -975,14 +1003,18 @@ def _eval_histories(case):
                 res['transitions'] += 1
                 res['evals'] += 1
             st = _canonical(sim, rng)
-            state_ids.add(hashlib.sha1((label + repr(st)).encode()).hexdigest()[:16])
+            if rng.pos == 0 and done > 0 and not rng.other_calls:
+                bad(IGNORED, seq[:j], variates_consumed=0, expected=done * n, entry='DirectSimulation.run')
+                uncontrolled = True
+            state_ids.add(hashlib.sha1((label + repr((st[0], st[4]) if uncontrolled else st)).encode())
+                          .hexdigest()[:16])
             R = sim.results
             lens = [len(R['effective_error']), len(R['success']), len(R['codespace'])]
             if any(x != st[0] for x in lens):
                 bad('list-length-differs-from-n_runs', seq[:j], n_runs=st[0], lengths=lens)
             if st[0] != done:
                 bad('n_runs-differs-from-trials-requested', seq[:j], n_runs=st[0], requested=done)
-            if st != want[done]:
+            if not uncontrolled and st != want[done]:
                 which = [nm for nm, a, b_ in zip(['n_runs', 'effective_error', 'success', 'codespace',
                                                   'rng_position'], st, want[done]) if a != b_]
                 bad('state-differs-from-single-run-of-same-total', seq[:j], differs_in=which,
@@ -1027,8 +1059,10 @@ def _eval_histories(case):
     for kk, vv in counts.items():
         X['histories_' + kk.replace('-', '_')] = vv
     X['histories_sequences'] = res['traces']
+    if uncontrolled:
+        V[:] = [v for v in V if not v['key']['kind'].startswith('reference-')]
     res['samples'].append({'part': 'histories', 'config': label, 'sequences': res['traces'],
-                           'success_per_trial': list(want[T][2])})
+                           'success_per_trial': list(want[T][2]) if T in want else None})
     return res
 
 
@@ -1041,11 +1075,31 @@ class ScriptedRNG_pos:
 
 
 # ------------------------------------------------------------------ part 'seeds'
+def _make_rng(style, seed):
+    """Every seeding style the library's `rng=` accepts (it only calls rng.random())."""
+    if style == 'default_rng':
+        return np.random.default_rng(seed)
+    if style == 'RandomState':
+        return np.random.RandomState(seed)
+    if style == 'np.random-module':
+        np.random.seed(seed)
+        return np.random
+    raise KeyError(style)
+
+
+def _rng_state(rng):
+    if isinstance(rng, np.random.Generator):
+        return repr(rng.bit_generator.state)
+    st = rng.get_state()
+    return hashlib.sha1(repr((st[0], np.asarray(st[1]).tobytes(), st[2:])).encode()).hexdigest()
+
+
 def _seeded_run(case):
     from panqec.simulation import DirectSimulation
     code = _build_code(case)
     em, dec = _fresh_decoder(case, code)
-    rng = np.random.default_rng(case['seed'])
+    rng = _make_rng(case.get('style', 'default_rng'), case['seed'])
+    state0 = _rng_state(rng)
     sim = DirectSimulation(code, em, dec, case['p'], rng=rng, verbose=False)
     exc = None
     try:
@@ -1060,8 +1114,8 @@ def _seeded_run(case):
            tuple(str(np.asarray(x).dtype) for x in R['effective_error']),
            tuple(bool(x) for x in R['success']),
            tuple(bool(x) for x in R['codespace']),
-           rng.bit_generator.state['state']['state'])
-    return out, exc, list(em.rates)
+           _rng_state(rng))
+    return out, exc, list(em.rates), (state0 == _rng_state(rng) and len(em.rates) > 0)
 
 
 def _seeded_reference(case):
@@ -1069,7 +1123,7 @@ def _seeded_reference(case):
     from panqec.simulation import run_once
     code = _build_code(case)
     em, dec = _fresh_decoder(case, code)
-    rng = np.random.default_rng(case['seed'])
+    rng = _make_rng(case.get('style', 'default_rng'), case['seed'])
     recs = []
     try:
         with contextlib.redirect_stdout(io.StringIO()):
@@ -1082,17 +1136,26 @@ def _seeded_reference(case):
             tuple(str(np.asarray(r['effective_error']).dtype) for r in recs),
             tuple(bool(r['success']) for r in recs),
             tuple(bool(r['codespace']) for r in recs),
-            rng.bit_generator.state['state']['state'])
+            _rng_state(rng))
 
 
 def _eval_seeds(case):
     res = _new_result()
-    a, ea, rates_a = _seeded_run(case)
-    b, eb, _ = _seeded_run(case)
+    a, ea, rates_a, ignored_a = _seeded_run(case)
+    b, eb, _, ignored_b = _seeded_run(case)
     res['evals'] = 3
     res['traces'] = 3
-    key0 = dict(_base_key(case), seed=case['seed'], trials=case['trials'])
+    key0 = dict(_base_key(case), seed=case['seed'], trials=case['trials'],
+                seeding_style=case.get('style', 'default_rng'))
     V = res['violations']
+    if ignored_a or ignored_b:
+        # errors were sampled (the noise model was called) but the supplied generator never advanced: decided
+        # by the draw count alone; the recorded values are then not a function of the seed and are not compared
+        V.append({'key': dict(key0, kind=IGNORED),
+                  'detail': {'errors_sampled': len(rates_a), 'generator_state_changed': False}})
+        res['nontrivial'] = 1
+        res['outcomes'] = ['%s|seed|ignored|%s' % (case['decoder'][:5], case.get('style', 'default_rng'))]
+        return res
     if ea or eb:
         e = ea or eb
         V.append({'key': dict(key0, kind='raises', exc=e[0]),
